@@ -335,6 +335,10 @@ impl<'tcx> Cx<'tcx> {
         if let ty::FnDef(d, args) = t.kind() {
             return J::Obj(vec![("fn", self.fn_ref(owner, *d, args))]);
         }
+        // `&fn_item` (a promoted reference to a zero-sized fn item, e.g. `prepare_func: &f`)
+        if let ty::FnDef(d, args) = t.peel_refs().kind() {
+            return J::Obj(vec![("fn", self.fn_ref(owner, *d, args)), ("byref", J::Bool(true))]);
+        }
         let mut o: Vec<(&'static str, J)> = vec![("ty", s(tys))];
         match c {
             Const::Unevaluated(u, _) => {
